@@ -75,6 +75,7 @@ def year_task(arg):
                 return req, lifters[req]
         return None, None
     seen = set()
+    tried = {}
     for name, k, kind, det in cands:
         gkey = (name, kind, det.split(':', 1)[0] if kind == 'exception' else det)
         req, lf = lifter_for(name)
@@ -85,6 +86,12 @@ def year_task(arg):
             res['unreachable'].append(name)
             continue
         if gkey in seen:
+            continue
+        tried[gkey] = tried.get(gkey, 0) + 1
+        if tried[gkey] > 3:
+            # a line with thousands of crashing paths (same cause): three lifting attempts per cause
+            if tried[gkey] == 4:
+                res['obligations'].append((oname + ' (+ further paths with the same cause)', 'unknown', 0.0, 'lifting attempts exhausted for %s' % (gkey,)))
             continue
         t1 = time.time()
 
